@@ -98,13 +98,18 @@ fn solve(mode: &str, lines: &[String], out: &mut Vec<String>) {
     if lines.is_empty() {
         return;
     }
-    let limit = Duration::from_millis(4000 + 150 * lines.len() as u64);
+    let limit = Duration::from_millis(15000 + 1000 * lines.len() as u64);
     if let Some(res) = run_child(mode, lines, limit) {
         out.extend(res);
         return;
     }
     if lines.len() == 1 {
-        // one case killed its child: abort, stack overflow or hang
+        // one case killed its child: retry alone with a generous limit (machine load), then give up:
+        // abort, stack overflow or hang
+        if let Some(res) = run_child(mode, lines, Duration::from_secs(60)) {
+            out.extend(res);
+            return;
+        }
         out.push("timeout-or-abort".to_string());
         return;
     }
@@ -116,8 +121,8 @@ fn solve(mode: &str, lines: &[String], out: &mut Vec<String>) {
 fn supervise(child_mode: &str) {
     let stdin = std::io::stdin();
     let lines: Vec<String> = stdin.lock().lines().map(|l| l.unwrap()).collect();
-    let batch: usize = std::env::var("C13_BATCH").ok().and_then(|s| s.parse().ok()).unwrap_or(40);
-    let nthreads: usize = std::env::var("C13_JOBS").ok().and_then(|s| s.parse().ok()).unwrap_or(8);
+    let batch: usize = std::env::var("C13_BATCH").ok().and_then(|s| s.parse().ok()).unwrap_or(8);
+    let nthreads: usize = std::env::var("C13_JOBS").ok().and_then(|s| s.parse().ok()).unwrap_or(16);
     let chunks: Vec<Vec<String>> = lines.chunks(batch).map(|c| c.to_vec()).collect();
     let results = std::sync::Mutex::new(vec![Vec::new(); chunks.len()]);
     let next = std::sync::atomic::AtomicUsize::new(0);
